@@ -120,6 +120,10 @@ ENGINES = {
         "sources": ["sim/io/io_main.cpp"],
         "libs": ["-lsolver", "-lcore", "-lriddle", "-lsmt", "-ljson"],
     },
+    "exec": {
+        "sources": ["sim/exec/exec_main.cpp", "sim/core/layout.cpp"],
+        "libs": ["-lexecutor", "-lsolver", "-lcore", "-lriddle", "-lsmt", "-ljson", "-lgmpxx", "-lgmp"],
+    },
     "plan": {
         "sources": ["sim/plan/plan_main.cpp", "sim/core/layout.cpp"],
         "libs": ["-lsolver", "-lcore", "-lriddle", "-lsmt", "-ljson", "-lz3", "-lgmpxx", "-lgmp"],
